@@ -4,10 +4,13 @@
     never modifies reception state; data frames never modify transmission state; the only shared
     cells are the two flow-control mailboxes), and absence of a wedge in either direction in
     every reachable state (whatever the interleaving of process() passes, deliveries and ticks).
-    Delivery of both directions' payloads then follows per direction from C01 / C02 / C03.
-    The joint two-peer statement over every interleaving is explored, not proved
-    (harness/props/C10.py). *)
-From IsoTp Require Import Base.Prelude Model.Micro Spec.ConfigSpec Proofs.Inv Proofs.FsmProps Proofs.DuplexP.
+    Over every schedule of process() / send() / recv() calls and ticks on two linked peers, both
+    transmitting and receiving at once (C10_both_directions): as long as no error is reported, each
+    direction's deliveries are a prefix of what the other side accepted, and all of it at rest -
+    whatever the other direction is doing meanwhile.  That no error is reported under timely
+    processing is explored by the duplex campaign (harness/props/C10.py). *)
+From IsoTp Require Import Base.Prelude Model.Micro Model.Joint Spec.ConfigSpec Proofs.Inv Proofs.FsmProps Proofs.DuplexP
+  Proofs.WireP Proofs.JointP Proofs.JointProcP.
 
 Theorem C10_tx_preserves_rx : forall c allowed s, rxv (tr_s (process_tx_main c allowed s)) = rxv s.
 Proof. exact tx_preserves_rx. Qed.
@@ -49,9 +52,26 @@ Theorem C10_no_wedge : forall c s, reachable c s ->
     (pending_fc s = true /\ pending_fc_status s = Some FS_CTS)).
 Proof. exact no_wedge. Qed.
 
+(** Full duplex over EVERY schedule of user-level calls on two linked peers (any interleaving of the two
+    process() loops with any flags, send() on both sides at any moment, recv(), ticks): unless an error
+    event has been reported, B has been handed a prefix of what A accepted AND A a prefix of what B
+    accepted - same bytes, same order, exactly once - and at rest both have everything. *)
+Theorem C10_both_directions : forall ca cb, params_ok (c_p ca) -> params_ok (c_p cb) ->
+  linked ca cb -> linked cb ca ->
+  forall ta tb cls, Forall (call_ok ca cb) cls ->
+  let n := fst (crun ca cb (init_net ca cb ta tb) cls) in
+  let tr := snd (crun ca cb (init_net ca cb ta tb) cls) in
+  jerr tr = true \/
+  ((exists later, sent_of SA tr = (recv_of SB tr ++ rx_queue (nB n)) ++ later) /\
+   (exists later, sent_of SB tr = (recv_of SA tr ++ rx_queue (nA n)) ++ later) /\
+   (at_rest n -> sent_of SA tr = recv_of SB tr ++ rx_queue (nB n) /\
+                 sent_of SB tr = recv_of SA tr ++ rx_queue (nA n))).
+Proof. exact calls_transfer. Qed.
+
 Print Assumptions C10_tx_preserves_rx.
 Print Assumptions C10_rx_preserves_tx.
 Print Assumptions C10_fc_only_mailbox.
 Print Assumptions C10_fc_answer_pass.
 Print Assumptions C10_user_calls.
 Print Assumptions C10_no_wedge.
+Print Assumptions C10_both_directions.
